@@ -37,7 +37,7 @@ def parse_spec(path):
                 harness=None, defines={}, cbmc_flags=[], timeout={}, mode='proof', unwind=None,
                 contracts={}, replace_extra={}, loops=[], externals={}, assumptions=[], mutants=[],
                 allow_nobody=[], includes=[], covers=[], variants=[], not_decided=[], path=path, goto_flags=[],
-                memlimit_gb=None, object_bits=None)
+                memlimit_gb=None, object_bits=None, instrument='dfcc')
     cur = None
     buf = []
 
@@ -96,6 +96,10 @@ def parse_spec(path):
                     spec['timeout'][k] = int(v)
             elif key == 'memlimit_gb':
                 spec['memlimit_gb'] = int(arg)
+            elif key == 'instrument':
+                if arg not in ('dfcc', 'legacy'):
+                    raise Undecided('%s: bad @@instrument %r' % (path, arg))
+                spec['instrument'] = arg
             elif key == 'object_bits':
                 spec['object_bits'] = int(arg)
             elif key == 'mode':
@@ -211,6 +215,39 @@ def repo_file(rel, root=None):
     return os.path.join(root or REPO, rel)
 
 
+def subst_capsz(text, enforced):
+    out = []
+    i = 0
+    while True:
+        j = text.find('CAPSZ(', i)
+        if j < 0:
+            out.append(text[i:])
+            break
+        out.append(text[i:j])
+        k = j + len('CAPSZ(')
+        depth, args, cur = 1, [], ''
+        while depth:
+            ch = text[k]
+            if ch == '(':
+                depth += 1
+            elif ch == ')':
+                depth -= 1
+                if depth == 0:
+                    break
+            if ch == ',' and depth == 1:
+                args.append(cur)
+                cur = ''
+            else:
+                cur += ch
+            k += 1
+        args.append(cur)
+        if len(args) != 2:
+            raise Undecided('CAPSZ needs two arguments: %r' % text[j:k + 1])
+        out.append('(%s)' % (args[1].strip() if enforced else args[0].strip()))
+        i = k + 1
+    return ''.join(out)
+
+
 # ---------------------------------------------------------------- main pipeline
 def build_unit(spec, tier, workdir, repo_root=None, variant_defs=(), extra_defs=()):
     """Overlay + goto-cc + goto-instrument. Returns dict(gb=path, cmds=[...], inserted=..., sources=[...])."""
@@ -264,6 +301,10 @@ def build_unit(spec, tier, workdir, repo_root=None, variant_defs=(), extra_defs=
             raise Undecided('no contract found for %s' % fn)
         if fn != enforce and extra:
             text = text + '\n' + extra
+        # CAPSZ(n, cap): size of a caller-provided array. In the contract of the function under proof the
+        # object gets the constant capacity `cap` (symbolic-size heap objects are intractable, DESIGN 2); at a
+        # replaced call site the caller must provide the logical size `n`.
+        text = subst_capsz(text, enforced=(fn == enforce))
         if fn == enforce:
             for (cname, cexpr) in spec['covers']:
                 text += '\n__CPROVER_ensures(!(%s)) /*VF_COVER %s*/' % (cexpr, cname)
@@ -347,12 +388,12 @@ def build_unit(spec, tier, workdir, repo_root=None, variant_defs=(), extra_defs=
     defs += ['-D' + d for d in variant_defs]
     defs += ['-D' + d for d in extra_defs]
     gb0 = os.path.join(workdir, 'a.gb')
-    cmd1 = ['goto-cc', '-I' + srcdir] + defs + spec['goto_flags'] + ['--function', entry] + out_srcs + ['-o', gb0]
+    cmd1 = ['goto-cc', '-I' + srcdir, '-include', 'vf_prelude.h'] + defs + spec['goto_flags'] + ['--function', entry] + out_srcs + ['-o', gb0]
     rc, out, err, w = run(cmd1, 300, 8, cwd=workdir)
     if rc != 0:
         raise Undecided('goto-cc failed (rc=%s): %s' % (rc, (err or out)[-3000:]))
     gb1 = os.path.join(workdir, 'b.gb')
-    cmd2 = ['goto-instrument', '--dfcc', entry]
+    cmd2 = ['goto-instrument'] + (['--dfcc', entry] if spec['instrument'] == 'dfcc' else [])
     if enforce:
         cmd2 += ['--enforce-contract', enforce]
     for g in replace:
@@ -478,6 +519,11 @@ def run_unit(spec, tier, repo_root=None, variant=None, keep=None, extra_defs=())
                 return res
         if enforce_missing_post(spec, obligations):
             res['reason'] = 'no postcondition obligations for enforced function (vacuous)'
+            return res
+        if res['failed']:
+            res['status'] = 'fail'
+            if keep:
+                shutil.copytree(workdir, keep, dirs_exist_ok=True)
             return res
         if res['covers_missing']:
             res['reason'] = 'vacuity guard: cover goals not reachable: %s' % res['covers_missing']
